@@ -22,9 +22,9 @@ from harness import common
 from harness.common import fhex
 
 GEN_MODULES = ['coords']
-MODEL_TARGETS = ['model/M_Coords.vo', 'model/M_CoordsSF.vo']
+MODEL_TARGETS = ['model/M_Coords.vo', 'model/M_CoordsSF.vo', 'model/M_CoordsPdf.vo']
 PROOF_TARGETS = ['proofs/P_Coords_Real.vo', 'proofs/P_Coords_K.vo', 'proofs/P_Coords.vo', 'proofs/P_Coords_Rot.vo',
-                 'proofs/P_Coords_Sky.vo', 'proofs/P_Coords_Astropy.vo']
+                 'proofs/P_Coords_Sky.vo', 'proofs/P_Coords_Astropy.vo', 'proofs/P_CoordsPdf.vo']
 LEVEL = 'proof'
 RULE = ('direction pairs: generic, poles, antipodes (exact and near), identical points, separations 1e-14..1e-8, '
         'RA shifted by full turns, equator, psi_floor; rotations incl. identical / near-identical / near-antipodal '
@@ -519,7 +519,7 @@ def run_tdm(ctx, rng, lines, checks, n_groups):
                               impl=float(v), model=ref, predicate='psi == angle(source, event)')
 
 
-def run_signalpdf(ctx, rng, n_groups):
+def run_signalpdf(ctx, rng, n_groups, lines=None, checks=None):
     """GaussianPSFPointLikeSourceSignalSpatialPDF.calculate_pd on a stub TDM with K sources x N events and a sparse,
     shuffled (source, event) index table: pd must be the Gaussian of the SOURCE-EVENT angle of each listed pair
     (audit G/M1: np.take with the wrong index array)."""
@@ -534,6 +534,13 @@ def run_signalpdf(ctx, rng, n_groups):
             evt = [(0.5, -0.2), (1.7, 1.0), (4.6, 0.3), (3.0, -1.0), (6.0, 0.6)]
             sig = [0.3, 0.5, 0.8, 0.4, 0.6]
             pairs = [(2, 0), (0, 4), (1, 1), (0, 0), (2, 3), (1, 4), (0, 2)]
+        elif g == 1:
+            # malformed stream: sigma = 0, NaN, inf, negative (value = the same float expression in code and model)
+            n_src, n_evt = 1, 4
+            src = [(1.0, 0.2)]
+            evt = [(1.1, 0.3), (1.0, 0.2), (2.0, -0.4), (0.5, 0.1)]
+            sig = [0.0, float('nan'), float('inf'), -0.7]
+            pairs = [(0, 0), (0, 1), (0, 2), (0, 3)]
         else:
             n_src, n_evt = rng.randint(1, 4), rng.randint(1, 7)
             src = [(rng.uniform(0, TWOPI), rng.uniform(-1.3, 1.3)) for _ in range(n_src)]
@@ -559,6 +566,13 @@ def run_signalpdf(ctx, rng, n_groups):
             ctx.violation(site, 'argument-modified', 'TDM data changed by calculate_pd', case=case, predicate='arguments are inputs')
         for (s_, e_), v in zip(pairs, pd):
             ctx.count('signalpdf:pairs')
+            if lines is not None:
+                lines.append(hexline('spdfpd', src[s_][0], src[s_][1], evt[e_][0], evt[e_][1], sig[e_]))
+                checks.append({'f': 'spdfpd', 'src_ra': src[s_][0], 'src_dec': src[s_][1], 'ra': evt[e_][0], 'dec': evt[e_][1],
+                               'sigma': sig[e_], 'impl': float(v)})
+            if not (math.isfinite(sig[e_]) and sig[e_] > 0):
+                ctx.count('signalpdf:malformed-sigma')
+                continue
             psi = vincenty(src[s_][0], src[s_][1], evt[e_][0], evt[e_][1])
             s2 = sig[e_] ** 2
             want = 0.5 / (PI * s2) * math.exp(-0.5 * psi * psi / s2)
@@ -965,6 +979,17 @@ def compare(ctx, checks, outs):
             big = 16 * EPS * (abs(args[0]) + abs(args[2]))       # sin/cos of large arguments: libm vs numpy argument reduction
             if not (lo - slack - big <= imp <= hi + slack + big) or not same(m, m, 0):
                 ctx.disagree('coords.' + f, c, imp, m, f'impl outside [{lo!r}, {hi!r}] around the model value')
+        elif f == 'spdfpd':
+            m = parse(next(it))[0]
+            imp = c['impl']
+            if not (finite(imp, m) and finite(c['sigma']) and c['sigma'] != 0):
+                if not same(imp, m, 0.0):
+                    ctx.disagree('coords.signalpdf_pd', c, imp, m, 'non-finite value / malformed sigma handled differently')
+                continue
+            psi = vincenty(c['src_ra'], c['src_dec'], c['ra'], c['dec'])
+            rel = 1e-12 + psi / c['sigma'] ** 2 * sep_tol(c['src_ra'], c['src_dec'], c['ra'], c['dec'], psi)
+            if abs(imp - m) > rel * abs(m):
+                ctx.disagree('coords.signalpdf_pd', c, imp, m, f'pd differs by {abs(imp - m):.3g} (rel tol {rel:.3g})')
         elif f == 'rot':
             m = parse(next(it))
             imp = c['impl']
@@ -1486,7 +1511,7 @@ def execute(ctx, cases, rng, tdm_groups):
         run_sep(ctx, by['sep'], lines, checks)
     if tdm_groups:
         run_tdm(ctx, rng, lines, checks, tdm_groups)
-        run_signalpdf(ctx, rng, max(1, tdm_groups // 3))
+        run_signalpdf(ctx, rng, max(2, tdm_groups // 3), lines, checks)
         run_post_sampling(ctx, rng, lines, checks, max(10, tdm_groups // 3))
     if by.get('rot'):
         run_rot(ctx, by['rot'], lines, checks)
@@ -1604,9 +1629,11 @@ def replay(ctx, rp):
         lines, checks = [], []
         run_post_sampling(ctx, ctx.rng, lines, checks, 10)
         return model_side(ctx, lines, checks)
-    if c['f'] == 'signalpdf':
+    if c['f'] in ('signalpdf', 'spdfpd'):
         ctx.sample({'f': 'signalpdf'})
-        return run_signalpdf(ctx, ctx.rng, 20)
+        lines, checks = [], []
+        run_signalpdf(ctx, ctx.rng, 20, lines, checks)
+        return model_side(ctx, lines, checks)
     if c['f'] == 'history':
         ctx.sample(c)
         return run_history(ctx, int(c.get('seed', 0)))
